@@ -85,4 +85,19 @@ def runD : St → List Delta → Nat → Except Nat St
   | s, [], _ => .ok s
   | s, d :: rest, k => if wf s d then runD (app s d) rest (k + 1) else .error k
 
+/-! ### slide part numbering (`parts/presentation.py`: `rename_slide_parts`, `_next_slide_partname`) -/
+
+/-- the numbers given by the first access to `Presentation.slides`: the `n` listed slide parts get 1..n in list order,
+    the `k` slide parts that are in the package but not in the slide-id list get n+1..n+k -/
+def renamedNumbers (n k : Nat) : List Nat := List.range' 1 (n + k)
+
+/-- the number `add_slide` gives the next new slide when `j` slides have been added since the renaming -/
+def nextSlideNumber (n k j : Nat) : Nat := (n + j) + k + 1
+
+/-- the numbers in use after `j` additions -/
+def numbersAfter (n k : Nat) : Nat → List Nat
+  | 0 => renamedNumbers n k
+  | j + 1 => numbersAfter n k j ++ [nextSlideNumber n k j]
+
+
 end Pptx.Pkg
